@@ -439,27 +439,36 @@ Observe ==
     /\ UNCHANGED vars
 
 -----------------------------------------------------------------------------
-(* Calls other than the flush steps.  While an automatic flush is pending   *)
-(* they are only explored when the exclusion window is (AllowWindow).       *)
-Others ==
-    \/ Rotate /\ Edge("rotate", [x |-> 0])
-    \/ Clear /\ Edge("clear", [x |-> 0])
-    \/ \E en \in BOOLEAN, an \in AnonModes :
+(* The next-state relation.  Every disjunct is a named operator so that     *)
+(* TLC's coverage output names it (the check refuses to pass when one of    *)
+(* them was never taken).  While an automatic flush is pending, calls other *)
+(* than the flush itself are only explored when the exclusion window is     *)
+(* (AllowWindow).                                                           *)
+Calm == AllowWindow \/ ~flushPending
+
+DoRec ==
+    \E k \in KindChoices :
+        /\ RecordE(KindTable[k].name, KindTable[k].cli, KindTable[k].reason)
+        /\ Edge("rec", [kind |-> k])
+DoEnc       == Enc /\ Edge("enc", [x |-> 0])
+DoApp       == App /\ Edge("app", [x |-> 0])
+DoAutoFlush == AutoFlush /\ Edge("autoflush", [x |-> 0])
+DoRotate    == Calm /\ Rotate /\ Edge("rotate", [x |-> 0])
+DoClear     == Calm /\ Clear /\ Edge("clear", [x |-> 0])
+DoConf ==
+    /\ Calm
+    /\ \E en \in BOOLEAN, an \in AnonModes :
           (en # enabled \/ an # anon) /\ SetConf(en, an) /\ Edge("conf", [en |-> en, an |-> an])
-    \/ \E m \in (IF RestartResizes THEN MemSizes ELSE {memSize}) :
+DoRestart ==
+    /\ Calm
+    /\ \E m \in (IF RestartResizes THEN MemSizes ELSE {memSize}) :
           Restart(m) /\ Edge("restart", [ms |-> m])
+DoSearch == Quiescent /\ ~EmitEdges /\ (\E p \in SearchParams : SearchP(p))
 
 Next ==
-    \/ \E k \in KindChoices :
-          /\ RecordE(KindTable[k].name, KindTable[k].cli, KindTable[k].reason)
-          /\ Edge("rec", [kind |-> k])
-    \/ Enc /\ Edge("enc", [x |-> 0])
-    \/ AutoEnc
-    \/ App /\ Edge("app", [x |-> 0])
-    \/ AutoFlush /\ Edge("autoflush", [x |-> 0])
-    \/ (AllowWindow \/ ~flushPending) /\ Others
-    \/ Quiescent /\ ~EmitEdges /\ (\E p \in SearchParams : SearchP(p))
-    \/ Observe
+    \/ DoRec \/ DoEnc \/ AutoEnc \/ DoApp \/ DoAutoFlush
+    \/ DoRotate \/ DoClear \/ DoConf \/ DoRestart
+    \/ DoSearch \/ Observe
 
 Spec == Init /\ [][Next]_vars
 
